@@ -5,7 +5,7 @@ uint8_t vf_fatal_assume = 0;
 uint32_t vf_cur = 0;
 uint8_t vf_probe_mode = 0;
 uint16_t vf_pc[VF_MAXT];
-uint8_t vf_done[VF_MAXT], vf_enabled[VF_MAXT], vf_blocked[VF_MAXT];
+uint8_t vf_done[VF_MAXT], vf_enabled[VF_MAXT], vf_blocked[VF_MAXT], vf_pausecnt[VF_MAXT];
 uint8_t vf_unwinding = 0;
 uint32_t vf_jmpval = 0;
 
